@@ -283,6 +283,65 @@ pub fn finish_reinit(w: &mut World) -> VResult<()> {
                     }
                 }
             }
+            // the successor's Welcome is a re-init Welcome: it is not a way into a "sub-group" of the old group
+            if let (Some(j), Some(wm)) = (joiners.first(), welcomes.first()) {
+                let grp = w.parties[*j].mems[g].group.clone().unwrap();
+                let r = guarded(&prop, "join_subgroup(re-init Welcome)", || {
+                    grp.join_subgroup(wm, Some(mls_rs::group::ExportedTree::from_bytes(&tree)?), Some(now))
+                })?;
+                w.stats.check("reinit-welcome-refused-by-join-subgroup");
+                if r.is_ok() {
+                    return Err(viol(
+                        w,
+                        "reinit-successor",
+                        "reinit-welcome-accepted-by-join-subgroup".into(),
+                        format!("P{j} joined the re-init successor's Welcome through join_subgroup (a branch operation)"),
+                    ));
+                }
+            }
+            // and a branch of the old group that imitates the successor (announced group id, all the members) is not
+            // the successor: the re-init client must refuse its Welcome
+            if same_suite && !joiners.is_empty() {
+                let mut bkps = vec![];
+                for j in &joiners {
+                    if let Some(k) = w.gen_key_package(*j)? {
+                        bkps.push(k);
+                    }
+                }
+                if bkps.len() == joiners.len() {
+                    let gid = format!("reinit-of-{g}-{:08x}", w.seed as u32).into_bytes();
+                    let cg2 = w.parties[creator].mems[g].group.clone().unwrap();
+                    let br: Result<(SimGroup, Vec<MlsMessage>), MlsError> = guarded(&prop, "branch(imitating the successor)", || {
+                        let mut msgs = vec![];
+                        for k in &bkps {
+                            msgs.push(MlsMessage::from_bytes(k)?);
+                        }
+                        cg2.branch(gid.clone(), msgs, Some(now))
+                    })?;
+                    if let Ok((sub, bws)) = br {
+                        let btree = sub.export_tree().to_bytes().unwrap_or_default();
+                        for j in &joiners {
+                            let grp = w.parties[*j].mems[g].group.clone().unwrap();
+                            for wm in &bws {
+                                let grp2 = grp.clone();
+                                let r = guarded(&prop, "ReinitClient::join(branch Welcome)", || {
+                                    grp2.get_reinit_client(None, None)?.join(wm, Some(mls_rs::group::ExportedTree::from_bytes(&btree)?), Some(now))
+                                })?;
+                                w.stats.check("branch-welcome-refused-by-reinit-client");
+                                if r.is_ok() {
+                                    return Err(viol(
+                                        w,
+                                        "reinit-successor",
+                                        "branch-welcome-accepted-by-reinit-client".into(),
+                                        format!("P{j} joined, through its re-init client, a sub-group that P{creator} branched off the old group with the announced group id"),
+                                    ));
+                                }
+                            }
+                        }
+                        w.stats.probe("branch-imitating-successor-offered");
+                    }
+                }
+            }
             // a party without the old group's state cannot join
             if let (Some(o), Some(wm)) = (outsider, welcomes.first()) {
                 let client = w.parties[o].client.clone();
